@@ -318,8 +318,12 @@ def run(rep, facts, tier):
 
     # ---------- R3
     n_host = 0
+    from .. import inline
+    V3 = inline.View(fx)      # a shared `with_canvas(xs, |c| ..)` helper and the closures handed to it are looked through
     for fn in sorted(fx.fns):
-        f = fx.fns[fn]
+        if (V3.transparent(fn) and fx.callers().get(fn)) or '{closure' in fn:
+            continue
+        f = V3(fn)
         if not any(callee_of(t) in ('core::cell::RefCell::<T>::try_borrow_mut', 'core::cell::RefCell::<T>::borrow_mut') for _, t in f.calls()):
             continue
         if 'repl::' in fn:
